@@ -137,6 +137,26 @@ Section Proofs.
       split; [|exact Ht]. unfold Arith.cxx_assign. rewrite Hc, <- Ht. apply convert_same.
   Qed.
 
+
+  (* '**': std::pow on any operand types (booleans included), declared double *)
+  Lemma pow_correct : forall (l r rp : rep) (E : env) (v1 v2 pv : val),
+    visit_BinOp Pow l r = OK rp ->
+    cxx_eval E (r_expr l) = Some v1 -> type_of v1 = r_ty l ->
+    cxx_eval E (r_expr r) = Some v2 -> type_of v2 = r_ty r ->
+    in_range v1 = true -> in_range v2 = true ->
+    py_binop Pow v1 v2 = Some pv ->
+    cxx_assign E (r_ty rp) (r_expr rp) = Some pv /\ r_ty rp = TDouble /\ type_of pv = TDouble.
+  Proof.
+    intros l r rp E v1 v2 pv Hv He1 Ht1 He2 Ht2 Hr1 Hr2 Hpy.
+    assert (Hd : type_of pv = TDouble).
+    { unfold Arith.py_binop in Hpy. destruct (width_of F v1), (width_of F v2); inversion Hpy; reflexivity. }
+    assert (Hrp : in_range pv = true) by (destruct pv; try reflexivity; discriminate Hd).
+    destruct (binop_column Pow l r rp E v1 v2 pv) as [H1 H2]; auto.
+    - unfold listed. tauto.
+    - simpl. exact I.
+    - split; [exact H1|]. split; [rewrite <- H2; exact Hd|exact Hd].
+  Qed.
+
   (* '%' with a floating operand: the emitted expression is ill-formed C++ (no value), for every F *)
   Lemma mod_floating_illformed : forall (l r rp : rep) (E : env) (v1 v2 : val),
     visit_BinOp Mod l r = OK rp ->
